@@ -14,12 +14,15 @@ import (
 // random schedule). There is no real time and no goroutine: a read either returns bytes or
 // the end condition (EOF, or a deadline error when the client is "silent" and a deadline is armed).
 type ScriptConn struct {
-	Rec     *Recorder
-	Slen    int    // the client sends Stream[:Slen] and then ends
-	EndKind string // "eof" | "silent" | "hold" (the client keeps the connection open: a read past the end blocks until Close / Release)
-	Pulls   []int  // sizes of the successive prefetch-issued socket reads; afterwards: as much as asked
-	Start   time.Time
-	Unit    time.Duration // deadlines are Start + list*Unit
+	Rec  *Recorder
+	Slen int // the client sends Stream[:Slen] and then ends
+	// EOFWithData: the read that delivers the last bytes of the stream reports io.EOF in the same call, as an io.Reader
+	// may (crypto/tls does when the peer writes and closes at once)
+	EOFWithData bool
+	EndKind     string // "eof" | "silent" | "hold" (the client keeps the connection open: a read past the end blocks until Close / Release)
+	Pulls       []int  // sizes of the successive prefetch-issued socket reads; afterwards: as much as asked
+	Start       time.Time
+	Unit        time.Duration // deadlines are Start + list*Unit
 
 	mu       sync.Mutex
 	pos      int
@@ -77,6 +80,9 @@ func (c *ScriptConn) Read(p []byte) (int, error) {
 			c.Rec.AddAux(Ev{"e": "HPull", "n": n})
 		} else {
 			c.Rec.Add(Ev{"e": "Pull", "n": n})
+		}
+		if c.EOFWithData && c.EndKind == "eof" && c.pos == c.Slen {
+			return n, io.EOF
 		}
 		return n, nil
 	}
